@@ -206,6 +206,19 @@ pub fn run_mutants(tr: &mut Trace, path: &str, start: u64, runs: u64) {
     tr.line(json!({"ev": "Reset", "run": start, "seed": 0, "driver": "codec", "profile": "mutants"}));
     let text = std::fs::read_to_string(path).unwrap_or_default();
     let mut n = 0;
+    if start == 0 {
+        // ShortBodies of MC_Codec: the empty body (a datagram that is nothing but a checksum), every one-byte body, every
+        // second byte after each known and some unknown type bytes
+        log_parse(tr, "mutant", &[]);
+        for a in 0..=255u8 {
+            log_parse(tr, "mutant", &[a]);
+        }
+        for t in [0u8, 1, 2, 3, 4, 5, 10, 11, 12, 6, 13, 255] {
+            for a in 0..=255u8 {
+                log_parse(tr, "mutant", &[t, a]);
+            }
+        }
+    }
     for line in text.lines().skip(start as usize).take(runs as usize) {
         if let Ok(v) = serde_json::from_str::<Value>(line) {
             if let Some(a) = v.get("body").and_then(|b| b.as_array()) {
